@@ -100,6 +100,10 @@ def collect(acc, opens, case, sources, printer_name, with_comments, via='assign'
     finally:
         if tmpdir:
             shutil.rmtree(tmpdir, ignore_errors=True)
+    if len(set(id(t) for t in trees)) != len(trees):
+        acc.fail(None, case, {'bucket': 'one_tree_object_for_two_files',
+                              'sourcepaths': [repr(t.sourcepath) for t in trees]}, opens)
+        return None, None
     printer = make_printer(printer_name)
     frags = []
     try:
@@ -127,6 +131,9 @@ def collect_nested(acc, opens, case, sources, printer_name, with_comments, where
         trees.append(tree)
         refs.append(ref)
     outer, inner = trees
+    if outer is inner:
+        acc.fail(None, case, {'bucket': 'one_tree_object_for_two_files'}, opens)
+        return None, None
     hosts = [n for n in Walker().walk(outer) if type(n).__name__ in ('FuncDecl', 'FuncExpr', 'Block')]
     if not hosts:
         acc.skipped['no_host_for_nesting'] += 1
@@ -279,6 +286,9 @@ def run_shard(shard):
     opens = shard['open_signatures']
 
     def one(texts, printer_name, wc, origin, nested_at=None, via='assign'):
+        if len(texts) >= 2 and nested_at is not None and nested_at % 5 == 0:
+            # two files with identical content are still two files
+            texts = list(texts[:-1]) + [texts[0]]
         sources = [(PATHS[i], t) for i, t in enumerate(texts)]
         if nested_at is not None and len(texts) == 2:
             origin = 'nested'
